@@ -32,9 +32,12 @@ def _impl_eval(ranges, r, plain=()):
         def __call__(self, r): return 1000.0 + self.i
     defs = [Multi_Range_Defn(m, s, (P(i) if i in plain else F(i))) for (m, s, i) in ranges]
     mr = create_Multi_Range_Potential_Form(*defs)
-    d = mr.deriv(r) if hasattr(mr, 'deriv') else 0.0
-    d2 = mr.deriv2(r) if hasattr(mr, 'deriv2') else 0.0
-    return [mr(r), d, d2]
+    def at(x):
+        d = mr.deriv(x) if hasattr(mr, 'deriv') else 0.0
+        d2 = mr.deriv2(x) if hasattr(mr, 'deriv2') else 0.0
+        return [mr(x), d, d2]
+    if r is None: return at           # the object itself, for histories of queries
+    return at(r)
 
 def _impl_eval_config(ranges, r):
     """the same through a potable definition: `[Pair] A-B : >=s1 as.constant v1 >s2 as.constant v2 ...`
@@ -186,6 +189,22 @@ def oracle(case):
         fails.append('selected start %r is not the greatest containing start %r' % (s, gs))
     if any(x[0] == '>=' and x[1] == r for x in ranges) and not (m == '>=' and s == r):
         fails.append('r=%r is the start of an inclusive range but %r was selected' % (r, selr[0]))
+    # the selection is a function of r alone: one object asked at several separations in any order (inside a range, then exactly at
+    # its start; descending; back again) answers each query like a fresh object
+    if case['route'] == 'api':
+        starts = sorted({x[1] for x in ranges})
+        qs = [x + 0.25 for x in starts] + starts + [r] + [x - 0.25 for x in starts]
+        qs = [x for x in qs if x == x and abs(x) != float('inf')] or [0.0]
+        qs = [qs[(7 * k) % len(qs)] for k in range(len(qs))] + sorted(qs, reverse=True)[:6] + ([r] if r == r and abs(r) != float('inf') else [])
+        same = lambda u, v: len(u) == len(v) and all(p_ == q_ or (p_ != p_ and q_ != q_) for p_, q_ in zip(u, v))
+        try:
+            at = _impl_eval(list(ranges), None, tuple(case.get('plain', [])))
+            for x in qs:
+                a = at(x); b = _impl_eval(list(ranges), x, tuple(case.get('plain', [])))
+                if not same(a, b):
+                    fails.append('the same object asked at r=%r after other separations gives %r, a fresh object gives %r (queries so far: %r)' % (x, a, b, qs[:qs.index(x) + 1][-4:])); break
+        except Exception as e:
+            fails.append('a history of queries raised %s: %s' % (type(e).__name__, str(e)[:80]))
     # order independence (only determined by the statement when keys are distinct)
     if not dup_key(case) and case['route'] == 'api' and len(ranges) <= 6:
         perms = list(itertools.permutations(ranges))
